@@ -595,6 +595,9 @@ def run(cx, rep):
     # ---------------------------------------------------------------- C02.15
     rep.rule("C02.15", "the canonical rendering that decides whether two schemas are equal keeps the order of arrays")
     canonical_json_rule(mod, rep, "C02.15")
+    # ---------------------------------------------------------------- C02.22
+    rep.rule("C02.22", "the schema of a tuple closes the array: `items` is the rest element's schema or `false`, in every returned schema")
+    closed_tuple_schema_rule(fam, mod, rep, "C02.22")
     # ---------------------------------------------------------------- C02.21
     rep.rule("C02.21", "a discriminator key is turned back into the literal it was read from (key extractor and key -> literal constructor are inverse)")
     key_literal_inverse_rule(cx, rep, "C02.21")
@@ -1158,3 +1161,55 @@ def key_literal_inverse_rule(cx, rep, rid):
                "the printer reads discriminator keys with %s, which yields a key for %s, but rebuilds the literal type of a key with %s, which never constructs that: a key read from such a literal is narrowed back to a DIFFERENT literal type (a string where the validator expects the number), so the schema table of the discriminated union disagrees with its dispatch table" % (
                    eg, ", ".join(x.split("::", 2)[-1] for x in extra), " / ".join(sorted(x.rsplit("::", 1)[-1] for x in Ns))),
                F.fns[eg].loc(), sample={"extractor": eg, "some_on_variants": sorted(x.split("::", 2)[-1] for x in vs), "constructor_builds": sorted(x.split("::", 2)[-1] for x in built)})
+
+
+def closed_tuple_schema_rule(fam, mod, rep, rid):
+    """The validator of a tuple rejects every element beyond the prefix unless there is a rest element.  In JSON Schema
+    that is `items: false` (after `prefixItems`); a returned schema without `items`, or with an `items` that can be
+    `undefined` (the rest element read through `?.` without a `?? false`), accepts arrays of any length.
+    Decided for the class whose constructor takes the prefix validators and an optional rest validator (fields typed
+    `Runtype[]` and `Runtype | null`): every object literal its schema() returns (helpers folded in) has an `items`
+    entry whose value - through local consts - is `false`, `<rest test> ? <rest schema> : false` or `<x> ?? false`."""
+    n = 0
+    for cname in sorted(fam.concrete()):
+        flds = fam.all_fields(cname)
+        arr = [f for f, (o, ann) in flds.items() if ann is not None and tsast.type_str(ann).replace(" ", "") in ("Runtype[]", "Array<Runtype>")]
+        opt = [f for f, (o, ann) in flds.items() if ann is not None and tsast.type_str(ann).replace(" ", "") in ("Runtype|null", "null|Runtype", "Runtype|undefined", "Runtype|null|undefined")]
+        _, m = fam.resolve_method(cname, "schema")
+        if not arr or not opt or not m or m["function"].get("body") is None:
+            continue
+        fn = tsast.flatten_fn(mod, cname, m["function"])
+        al = ts_common.local_aliases(fn)
+        def closed(e, depth=0):
+            e = unparen(e)
+            t = e.get("type")
+            if t == "BooleanLiteral":
+                return e.get("value") is False
+            if t == "ConditionalExpression":
+                return closed(e["alternate"], depth) or closed(e["consequent"], depth)
+            if t == "BinaryExpression" and e.get("operator") in ("??", "||"):
+                return closed(e["right"], depth)
+            if t == "Identifier" and e["value"] in al and depth < 4:
+                return closed(al[e["value"]], depth + 1)
+            if t in ("TsAsExpression", "TsNonNullExpression"):
+                return closed(e["expression"], depth)
+            return False
+        for r in tsast.walk_no_nested_fn(fn["body"]):
+            if r["type"] != "ReturnStatement" or r.get("argument") is None:
+                continue
+            objs = [o for o in walk(r["argument"]) if o["type"] == "ObjectExpression" and any(
+                p_["type"] == "KeyValueProperty" and tsast.prop_key(p_["key"]) == "type" and unparen(p_["value"]).get("value") == "array" for p_ in o["properties"])]
+            for o in objs:
+                n += 1
+                items = None
+                for p_ in o["properties"]:
+                    if p_["type"] == "KeyValueProperty" and tsast.prop_key(p_["key"]) == "items":
+                        items = p_["value"]
+                    elif p_["type"] == "Identifier" and p_["value"] == "items":
+                        items = p_
+                ok = items is not None and closed(items)
+                rep.ob(rid, "%s.schema/items-closed#%d" % (cname, n - 1), ok,
+                       "%s.schema() returns an array schema whose `items` is %s: without a rest element nothing forbids elements beyond the prefix, so `[1]` is valid against the schema of `[]` while validate() rejects it" % (
+                           cname, "missing" if items is None else "`%s`, which is not `false` when there is no rest element" % s(items)[:60]),
+                       mod.loc(o), sample={"class": cname, "items": s(items)[:80] if items is not None else None})
+    rep.floor(rid, "array schemas returned by the tuple class", n, 1)
